@@ -22,7 +22,7 @@ from typing import Any, Dict, List, Optional, Tuple
 
 from ..cfg import cfg_of
 from ..flow import Sym, fpaths, attr_effects, allfacts
-from ..model import FuncInfo, attr_chain, norm, walk_no_nested
+from ..model import FuncInfo, attr_chain, norm, walk_no_nested, AnalysisError
 from ..report import Checker
 from .common import idle_predicate_check
 
@@ -352,10 +352,40 @@ def run(ch: Checker) -> None:
     upstream_flush_check(ch, 'C07.7')
 
     # ---------------- C07.10 (shared)
+    ch.rule('C07.13', 'a protocol plugin\'s write_to_descriptors asks for teardown only on an I/O failure of its own side (inside an exception handler) or because a plugin it delegates to asked: '
+                      'HttpProtocolHandler.handle_events closes at once on True from this hook, without waiting for the client buffer to drain, so it cannot be used to say "finished, please close"', 3)
+    n13 = 0
+    for ci13 in [prog.class_named('HttpProtocolHandlerPlugin')] + prog.subclasses(prog.class_named('HttpProtocolHandlerPlugin')) + [prog.class_named('TcpUpstreamConnectionHandler')]:
+        wt = ci13.methods.get('write_to_descriptors')
+        if wt is None or ci13.name == 'HttpProtocolHandlerPlugin':
+            continue
+        g13 = cfg_of(wt, prog)
+        bad13 = None
+        np13 = 0
+        for p in fpaths(g13):
+            ch.paths += 1
+            if p.exit_kind != 'return' or p.coarse:
+                continue
+            np13 += 1
+            last = p.stmts()[-1] if p.stmts() else None
+            v = Sym(p).value(last[1].value, last[0]) if last is not None and isinstance(last[1], ast.Return) and last[1].value is not None else ast.Constant(value=None)
+            if isinstance(v, ast.Constant) and v.value in (False, None):
+                continue
+            in_handler = any(g13.nodes[nid].kind == 'handler' for nid, lab in p.steps)
+            fd13 = allfacts(p)
+            delegated = any('.write_to_descriptors(' in k and val is True for k, val in fd13.items()) or any(isinstance(x, ast.Call) and isinstance(x.func, ast.Attribute) and x.func.attr == 'write_to_descriptors' for x in ast.walk(v))
+            if not in_handler and not delegated:
+                bad13 = ('%s.write_to_descriptors returns %s outside any I/O failure handling and not because a delegate asked: handle_events then closes the connection immediately, '
+                         'and whatever is still queued for the client beyond one flush is lost' % (ci13.name, norm(v)[:60]), p.describe(16))
+        n13 += 1
+        ch.check(bad13 is None and np13 > 0, 'C07.13', wt, 'teardown from the write hook', 'True only from failure handlers / delegates (%d path(s))' % np13, bad13[0] if bad13 else 'no return path', witness=bad13[1] if bad13 else None)
+    if n13 == 0:
+        raise AnalysisError('anchor vanished: no write_to_descriptors implementation found')
     ch.import_rules('C10', {'C10.2': 'C07.10'}, 'threaded mode flushes pending output in shutdown() through the per-connection selector; descriptors left registered by an exceptional exit of _run_once make that flush fail before it wrote anything')
 
     # ---------------- C07.5 / C07.6 (shared)
     ch.import_rules('C01', {'C01.2': 'C07.5', 'C01.3': 'C07.6'}, 'output is delivered once and completely only if flush removes exactly what was sent and the counter that has_buffer() reads agrees with the queue')
+    ch.import_rules('C05', {'C05.8': 'C07.12'}, 'output still queued when the upstream is done is delivered only if no socket the handler still reports is closed before teardown')
 
 
 def _parents(root: ast.AST) -> Dict[int, ast.AST]:
